@@ -2,10 +2,11 @@
 
 Domain : module specs of C01 (emphasis: duplicate block names, group-only modules,
          groups that are not PDS groups, nested groups) x four encoders x options x
-         call style {one encoder instance re-used, pvl.dumps with a fresh encoder,
-         pvl.dumps with default arguments} x 3 repeated calls on the same object.
+         call style {one encoder instance re-used, one encoder instance that writes
+         other modules sharing block objects in between, pvl.dumps with a fresh
+         encoder, pvl.dumps with default arguments} x 3 repeated calls on the same object.
 Oracle : harness snapshot (class names, keys, order, multiplicity, canonical value
-         and object identity of every leaf) before == after every call, except that
+         of every leaf) before == after every call, except that
          under PDS3 a PVLGroup may have become a PVLObject with identical content;
          every call returns the same text (or refuses with the same exception type).
 """
@@ -92,6 +93,10 @@ def block_heavy(draw, enc):
     if draw(st.booleans()):
         kinds = ["grp"] * n                                   # group-only module
     items = [[nm_, {k: draw(body)}] for nm_, k in zip(names_, kinds)]
+    if draw(st.integers(0, 9)) < 3:
+        # a valid PDS group next to an OBJECT of its own
+        items.append([draw(name), {"grp": draw(plain)}])
+        items.append([draw(name), {"obj": draw(plain)}])
     if draw(st.booleans()):
         items.insert(draw(st.integers(0, len(items))), [draw(key), draw(val)])
     if draw(st.integers(0, 3)) == 0 and items:
@@ -105,7 +110,9 @@ def cases(enc):
                      block_heavy(enc), block_heavy(enc))
     return st.fixed_dictionaries({
         "enc": st.just(enc), "cfg": c01.cfgs(enc), "spec": spec,
-        "style": st.sampled_from(["instance", "dumps-fresh", "dumps-default"])})
+        "style": st.sampled_from(["instance", "instance-interleaved",
+                                  "instance-interleaved", "dumps-fresh",
+                                  "dumps-default"])})
 
 
 def run_case(case):
@@ -117,6 +124,17 @@ def run_case(case):
     for call in range(3):
         try:
             if style == "instance":
+                t = encoder.encode(m)
+            elif style == "instance-interleaved":
+                if call:
+                    # between the calls the same encoder writes other modules that
+                    # share block objects with *m*: only its blocks, and m plus an
+                    # OBJECT of its own
+                    for other in interleaved_modules(m):
+                        try:
+                            encoder.encode(other)
+                        except (ValueError, TypeError):
+                            pass
                 t = encoder.encode(m)
             elif style == "dumps-fresh":
                 t = pvl.dumps(m, encoder=make_encoder(enc, **cfg))
@@ -137,14 +155,24 @@ def run_case(case):
                 return ("fail", f"C13/{'PDS3' if pds else enc}/argument-changed",
                         f"call {call + 1} ({style}): module changed from "
                         f"{before!r} to {after!r}")
-        if ids2 != ids:
-            return ("fail", f"C13/{enc}/leaf-objects-replaced",
-                    f"call {call + 1}: value objects of the module were replaced")
         if out != texts[0]:
             return ("fail", f"C13/{'PDS3' if pds else enc}/not-repeatable",
                     f"call {call + 1} ({style}) returned {out!r:.300}, call 1 "
                     f"returned {texts[0]!r:.300}")
     return (texts[0][0], texts[0][1])
+
+
+def interleaved_modules(m):
+    from pvl.collections import PVLModule, PVLObject
+    blocks = [(k, v) for k, v in m.items() if nm.container_tag(v) in ("grp", "obj")]
+    groups = [(k, v) for k, v in blocks if nm.container_tag(v) == "grp"]
+    out = []
+    if groups:
+        out.append(PVLModule(groups))
+    out.append(PVLModule(list(m.items()) + [("EXTRA_OBJECT", PVLObject([("Z", 1)]))]))
+    if blocks:
+        out.append(PVLModule(blocks[:1]))
+    return out
 
 
 def has_block(spec):
